@@ -108,3 +108,55 @@ package actionlint
 //@   props C04
 //@   anchor
 //@   forbid_call (*ExprParser).parseLogicalAnd (*ExprParser).parseCompareBinOp (*ExprParser).parsePrefixOp (*ExprParser).parsePostfixOp (*ExprParser).parsePrimaryExpr
+
+// C01/C04: while parsing, the parser always holds a lookahead token and its lexer; reporting an error
+// consumes nothing
+//@ func (*ExprParser).next
+//@   requires [C01] p.cur != nil && p.lexer != nil
+//@   ensures [C01 C04] result == old(p.cur) && p.cur != nil && p.lexer == old(p.lexer)
+//@ func (*ExprParser).error
+//@   ensures [C01 C04] p.cur == old(p.cur) && p.lexer == old(p.lexer)
+//@ func (*ExprParser).errorf
+//@   ensures [C01 C04] p.cur == old(p.cur) && p.lexer == old(p.lexer)
+//@ func (*ExprParser).unexpected
+//@   requires [C01] p.cur != nil
+//@   ensures [C01 C04] p.cur == old(p.cur) && p.lexer == old(p.lexer)
+//@   loop "range expected":
+//@     invariant [C01] p.cur == old(p.cur) && p.lexer == old(p.lexer) && p.err == old(p.err)
+//@ func (*ExprParser).parseIdent
+//@   requires [C01] p.cur != nil && p.lexer != nil
+//@   ensures [C01] p.cur != nil && p.lexer == old(p.lexer)
+//@   loop "for":
+//@     invariant [C01] p.cur != nil && p.lexer == old(p.lexer)
+//@ func (*ExprParser).parseNestedExpr
+//@   requires [C01] p.cur != nil && p.lexer != nil
+//@   ensures [C01] p.cur != nil && p.lexer == old(p.lexer)
+//@ func (*ExprParser).parseInt
+//@   requires [C01] p.cur != nil && p.lexer != nil
+//@   ensures [C01] p.cur != nil && p.lexer == old(p.lexer)
+//@ func (*ExprParser).parseFloat
+//@   requires [C01] p.cur != nil && p.lexer != nil
+//@   ensures [C01] p.cur != nil && p.lexer == old(p.lexer)
+//@ func (*ExprParser).parseString
+//@   requires [C01] p.cur != nil && p.lexer != nil
+//@   ensures [C01] p.cur != nil && p.lexer == old(p.lexer)
+//@ func (*ExprParser).parsePrimaryExpr
+//@   requires [C01] p.cur != nil && p.lexer != nil
+//@   ensures [C01] p.cur != nil && p.lexer == old(p.lexer)
+//@ func (*ExprParser).parsePostfixOp
+//@   requires [C01] p.cur != nil && p.lexer != nil
+//@   ensures [C01] p.cur != nil && p.lexer == old(p.lexer)
+//@   loop "for":
+//@     invariant [C01] p.cur != nil && p.lexer == old(p.lexer)
+//@ func (*ExprParser).parsePrefixOp
+//@   requires [C01] p.cur != nil && p.lexer != nil
+//@   ensures [C01] p.cur != nil && p.lexer == old(p.lexer)
+//@ func (*ExprParser).parseCompareBinOp
+//@   requires [C01] p.cur != nil && p.lexer != nil
+//@   ensures [C01] p.cur != nil && p.lexer == old(p.lexer)
+//@ func (*ExprParser).parseLogicalAnd
+//@   requires [C01] p.cur != nil && p.lexer != nil
+//@   ensures [C01] p.cur != nil && p.lexer == old(p.lexer)
+//@ func (*ExprParser).parseLogicalOr
+//@   requires [C01] p.cur != nil && p.lexer != nil
+//@   ensures [C01] p.cur != nil && p.lexer == old(p.lexer)
